@@ -17,12 +17,12 @@ func init() {
 	register(&run.Check{
 		ID:    "C17",
 		Level: "model_checking",
-		Rule: "explicit-state search over builder histories: every sequence of <=3 (thorough 4) calls over a 47-call alphabet (element / attribute / style rules in lower- and upper-case spellings and every scope; every boolean option with true and false; skip/keep content on two names in two spellings; scheme registrations incl. custom checks and patterns; two sandbox sets; rewriter) is executed on a fresh real policy. " +
+		Rule: "explicit-state search over builder histories: every sequence of <=3 (thorough 4) calls over a 49-call alphabet (element / attribute / style rules in lower- and upper-case spellings and every scope; every boolean option with true and false; skip/keep content on two names in two spellings; scheme registrations incl. custom checks and patterns; two sandbox sets; rewriter) is executed on a fresh real policy. " +
 			"Abstract state (reference model) = canonical rule set of the harness's spec view (names lower-cased, duplicates and order removed, last value of each switch, documented couplings). Conformance: every history reaching an abstract state must reproduce, byte for byte, the probe-output vector (46 probe documents) of the first history that reached it. " +
-			"Independence: for every pair of histories (A of length <=2, B of length <=1; B of length 2 next to A of length <=1 on the plain base) over a 13-call sub-alphabet and every interleaving of the two, built on two policy objects from each of NewPolicy / UGCPolicy / StrictPolicy, policy A's vector equals A built alone, before and after B is extended. " +
+			"Independence: (first, in a pristine process) for every base and every call of the alphabet, a fresh policy built after another instance was extended, and the instance built before, reproduce the original vector; then for every pair of histories (A of length <=2, B of length <=1; B of length 2 next to A of length <=1 on the plain base) over a 13-call sub-alphabet and every interleaving of the two, built on two policy objects from each of NewPolicy / UGCPolicy / StrictPolicy, policy A's vector equals A built alone, before and after B is extended. " +
 			"states = abstract states reached, transitions = histories executed (each is one path from the initial state), traces validated = histories replayed against the implementation (all of them); non-trivial = histories that reached an already-visited abstract state through a different call sequence.",
 		Assumptions: []string{"the reference model is internal/spec (ViewOf + Canon); probe documents are listed in internal/checks/c17.go"},
-		QuickBudget:  50, ThoroughBudget: 800,
+		QuickBudget: 50, ThoroughBudget: 800,
 		Run:    runC17,
 		Replay: replayC17,
 	})
@@ -59,7 +59,8 @@ func c17Alphabet() []C {
 		"RequireNoReferrerOnFullyQualifiedLinks", "AddSpaceWhenStrippingTag", "RequireCrossOriginAnonymous"} {
 		al = append(al, b(op)...)
 	}
-	al = append(al, els("p", "span"), els("iframe", "img", "a"), attrsOn([]string{"sandbox", "crossorigin"}, "", "iframe", "img"))
+	al = append(al, els("p", "span"), els("iframe", "img", "a"), attrsOn([]string{"sandbox", "crossorigin"}, "", "iframe", "img"),
+		els("SPAN", "A"), C{Op: "AllowNoAttrs", Scope: "on", On: []string{"SPAN", "img"}})
 	return al
 }
 
@@ -99,11 +100,17 @@ func firstDiff(a, b []string) int {
 }
 
 type c17Case struct {
-	Mode string   `json:"mode"` // equivalence | independence
-	A    []C      `json:"history_a"`
-	B    []C      `json:"history_b"`
-	Base string   `json:"base,omitempty"`
-	Inter []int   `json:"interleaving,omitempty"` // 0 = next call of A, 1 = next call of B
+	Mode  string     `json:"mode"` // equivalence | independence
+	A     []C        `json:"history_a"`
+	B     []C        `json:"history_b"`
+	Base  string     `json:"base,omitempty"`
+	Inter []int      `json:"interleaving,omitempty"` // 0 = next call of A, 1 = next call of B
+	Seq   []baseCall `json:"sequence,omitempty"`     // fresh-after: every (base, call) applied to a scratch instance so far, in order
+}
+
+type baseCall struct {
+	Base string `json:"base"`
+	Call C      `json:"call"`
 }
 
 func histStr(h []C) string {
@@ -120,6 +127,51 @@ func runC17(c *run.Ctx) {
 	depth := 3
 	if !c.Quick() {
 		depth = 4
+	}
+	// ---- phase 0 (first thing in a pristine process): instances do not share state --------------
+	// A fresh policy built after another one was built and extended must behave like one built
+	// before, and the earlier instance must not move either.
+	if c.Shard == 0 {
+		bases := []string{"new", "ugc", "strict"}
+		a0s := map[string]*bluemonday.Policy{}
+		v0s := map[string][]string{}
+		for _, base := range bases { // all reference vectors first, while nothing else has been built
+			a0s[base] = spec.Build(spec.Spec{Base: base})
+			v0s[base], _ = probeVector(a0s[base], c17Probes)
+		}
+		var seq []baseCall
+		for _, base := range bases {
+			a0, v0 := a0s[base], v0s[base]
+			for _, call := range al {
+				pb := spec.Build(spec.Spec{Base: base})
+				spec.Apply(pb, call)
+				seq = append(seq, baseCall{base, call})
+				probeVector(pb, c17Probes)
+				a1 := spec.Build(spec.Spec{Base: base})
+				v1, pm1 := probeVector(a1, c17Probes)
+				v0b, pm2 := probeVector(a0, c17Probes)
+				c.Eval()
+				c.Transitions++
+				c.Traces++
+				for which, v := range [][]string{v1, v0b} {
+					if i := firstDiff(v0, v); i >= 0 || pm1 != "" || pm2 != "" {
+						d := ""
+						if i >= 0 {
+							d = fmt.Sprintf(" probe %s: before %s, after %s", run.Q(c17Probes[i]), run.Q(v0[i]), run.Q(v[i]))
+						}
+						what := "a fresh"
+						if which == 1 {
+							what = "the earlier"
+						}
+						c.Violate("independence|"+base, fmt.Sprintf("after another %s policy was extended with %s, %s %s policy behaves differently;%s", base, histStr([]C{call}), what, base, d),
+							c17Case{Mode: "fresh-after", B: []C{call}, Base: base, Seq: append([]baseCall{}, seq...)})
+						c.Outcome("violation|independence")
+						break
+					}
+				}
+				c.Outcome("fresh-instance-unaffected")
+			}
+		}
 	}
 	type ref struct {
 		vec  []string
@@ -304,6 +356,24 @@ func replayC17(raw json.RawMessage) (bool, string) {
 			return false, "same behaviour"
 		}
 		return true, fmt.Sprintf("probe %s: %s vs %s", run.Q(c17Probes[i]), run.Q(va[i]), run.Q(vb[i]))
+	case "fresh-after":
+		// runs in a pristine process (bin/check replay and the confirmation step start one per case):
+		// reference vectors first, then the recorded sequence of scratch instances, then compare
+		bases := []string{"new", "ugc", "strict"}
+		a0s := map[string]*bluemonday.Policy{}
+		v0s := map[string][]string{}
+		for _, b := range bases {
+			a0s[b] = spec.Build(spec.Spec{Base: b})
+			v0s[b], _ = probeVector(a0s[b], c17Probes)
+		}
+		for _, bc := range x.Seq {
+			pb := spec.Build(spec.Spec{Base: bc.Base})
+			spec.Apply(pb, bc.Call)
+			probeVector(pb, c17Probes)
+		}
+		v1, _ := probeVector(spec.Build(spec.Spec{Base: x.Base}), c17Probes)
+		v0b, _ := probeVector(a0s[x.Base], c17Probes)
+		return firstDiff(v0s[x.Base], v1) >= 0 || firstDiff(v0s[x.Base], v0b) >= 0, "a policy built before / after other instances were extended behaves differently"
 	case "independence":
 		probes := c17Probes[:24]
 		va, _ := probeVector(spec.Build(spec.Spec{Base: x.Base, Calls: x.A}), probes)
